@@ -4,26 +4,26 @@
 EXTENDS TraceCommon, System
 RD == INSTANCE Render
 
-VARIABLES case, texts, exited
-fam == <<case, texts, exited>>
+VARIABLES case, texts, exited, badflag
+fam == <<case, texts, exited, badflag>>
 vars == <<tcvars, fam>>
 NoCase == [ctrs |-> <<>>, sel |-> <<>>, stages |-> <<>>, start |-> <<0, 0>>, end |-> <<0, 0>>, limit |-> 0 - 1, opts |-> <<FALSE, FALSE, FALSE>>]
 
-Init == TCInit /\ case = NoCase /\ texts = <<>> /\ exited = FALSE
+Init == TCInit /\ case = NoCase /\ texts = <<>> /\ exited = FALSE /\ badflag = <<>>
 Start == Begin /\ case' = [ctrs |-> Trace[l].in.ctrs, sel |-> Trace[l].in.sel, stages |-> Trace[l].in.stages, start |-> Trace[l].in.start,
                            end |-> Trace[l].in.end, limit |-> Trace[l].in.limit, opts |-> Trace[l].in.opts]
-         /\ texts' = <<>> /\ exited' = FALSE
+         /\ texts' = <<>> /\ exited' = FALSE /\ badflag' = (IF Has(Trace[l].in, "badflag") THEN Trace[l].in.badflag ELSE <<>>)
 
 \* the command line the probe built (free: recorded for the reader of a replay)
 EvArgs == IsEv("Args") /\ CaseWellFormed(case) /\ Accept /\ UNCHANGED fam
 BadCase == RejectEnv /\ Ev.ev = "Args" /\ ~CaseWellFormed(case) /\ UNCHANGED fam
 \* trusted base: RFC3339Nano text of every frame's timestamp
-EvTexts == IsEv("TsTexts") /\ Accept /\ texts' = Ev.texts /\ UNCHANGED <<case, exited>>
-\* a well-formed query over a healthy daemon succeeds
-ExitOk == ~exited /\ Ev.ok
-EvExit == IsEv("Exit") /\ ExitOk /\ Accept /\ exited' = TRUE /\ UNCHANGED <<case, texts>>
+EvTexts == IsEv("TsTexts") /\ Accept /\ texts' = Ev.texts /\ UNCHANGED <<case, exited, badflag>>
+\* a well-formed command over a healthy daemon succeeds; one with a malformed flag value is refused and prints nothing
+ExitOk == ~exited /\ (Ev.ok = (badflag = <<>>))
+EvExit == IsEv("Exit") /\ ExitOk /\ Accept /\ exited' = TRUE /\ UNCHANGED <<case, texts, badflag>>
 E == Printed(case)
-RenderedOk == exited /\ RD!CanParse(Ev.out, 1, E, DOMAIN E, {}, case.opts, texts)
+RenderedOk == exited /\ (IF badflag = <<>> THEN RD!CanParse(Ev.out, 1, E, DOMAIN E, {}, case.opts, texts) ELSE Ev.out = <<>>)
 EvRendered == IsEv("Rendered") /\ RenderedOk /\ Accept /\ UNCHANGED fam
 
 Explained == \/ Ev.ev \in {"Args", "TsTexts"}
